@@ -14,7 +14,7 @@ def main():
     for d in eng.decls:
         if d.kind not in ("func", "lemma") or pat not in d.name:
             continue
-        if d.kind == "func" and ("effectfree" in d.flags or "assumed" in d.flags):
+        if d.kind == "func" and ("effectfree" in d.flags or "assumed" in d.flags or "opaque" in d.flags):
             continue
         t0 = time.time()
         try:
